@@ -436,3 +436,383 @@ Proof.
   - rewrite sizes_total_data. lia.
   - rewrite Hp. rewrite split_cols_emit. reflexivity.
 Qed.
+
+(* ------------------------------------------------------------------ F4: loading the columns *)
+Definition loaded_col (cols : list (positive * bytes)) (restart : bool) (old : PM.t rcol)
+           (c : positive) : rcol :=
+  let d := col_lookup cols c in
+  let o := match PM.find c old with Some x => x | None => rcol0 end in
+  mkRcol (br_init d) d (if restart then u64_init else rc_u o) (if restart then f64_init else rc_f o).
+
+Lemma load_cols_spec : forall fuel t cols restart old c m, (depth t <= fuel)%nat ->
+  (In c (tree_cols t) -> PM.find c (load_cols fuel t cols restart m old) = Some (loaded_col cols restart old c)) /\
+  (~ In c (tree_cols t) -> PM.find c (load_cols fuel t cols restart m old) = PM.find c m).
+Proof.
+  induction fuel as [|f IH]; intros t cols restart old c m Hd.
+  - pose proof (depth_pos t). lia.
+  - cbn [load_cols]. rewrite tree_cols_unfold. destruct (tree_col t) as [c0|] eqn:Hc.
+    2:{ split; [intros []|reflexivity]. }
+    assert (Hfold : forall ch m,
+              (forall x, In x ch -> (depth x <= f)%nat) ->
+              (In c (flat_map tree_cols ch) ->
+               PM.find c (fold_left (fun m ch => load_cols f ch cols restart m old) ch m)
+               = Some (loaded_col cols restart old c)) /\
+              (~ In c (flat_map tree_cols ch) ->
+               PM.find c (fold_left (fun m ch => load_cols f ch cols restart m old) ch m) = PM.find c m)).
+    { induction ch as [|x ch IHch]; intros m0 Hdx.
+      - cbn [flat_map fold_left]. split; [intros []|reflexivity].
+      - cbn [flat_map fold_left].
+        destruct (IH x cols restart old c m0 (Hdx x (or_introl eq_refl))) as [Hx1 Hx2].
+        destruct (IHch (load_cols f x cols restart m0 old) (fun y Hy => Hdx y (or_intror Hy))) as [Hc1 Hc2].
+        split.
+        + intros Hin. apply in_app_or in Hin.
+          destruct (in_dec Pos.eq_dec c (flat_map tree_cols ch)) as [Hi|Hni]; [exact (Hc1 Hi)|].
+          rewrite (Hc2 Hni). destruct Hin as [Hin|Hin]; [exact (Hx1 Hin)|contradiction].
+        + intros Hni. rewrite Hc2 by (intros Hi; apply Hni, in_or_app; right; exact Hi).
+          apply Hx2. intros Hi. apply Hni, in_or_app. left. exact Hi. }
+    match goal with |- context [PM.add c0 ?x m] => set (x0 := x) end.
+    destruct (Hfold (tree_children t) (PM.add c0 x0 m)) as [H1 H2].
+    { intros x Hx. pose proof (depth_children t x Hx). lia. }
+    split.
+    + intros Hin.
+      destruct (in_dec Pos.eq_dec c (flat_map tree_cols (tree_children t))) as [Hi|Hni]; [exact (H1 Hi)|].
+      rewrite (H2 Hni). destruct Hin as [<-|Hin]; [|contradiction].
+      rewrite PM.gss. reflexivity.
+    + intros Hni. rewrite H2 by (intros Hi; apply Hni; right; exact Hi).
+      apply PM.gso. intros ->. apply Hni. left. reflexivity.
+Qed.
+
+(* every column of the tree gets the frame's data and the old (or initial) codec state; no other
+   column is touched *)
+Theorem load_cols_tree : forall t cols restart old c, (depth t <= tree_fuel)%nat ->
+  PM.find c (load_cols tree_fuel t cols restart (PM.empty _) old)
+  = if in_dec Pos.eq_dec c (tree_cols t) then Some (loaded_col cols restart old c) else None.
+Proof.
+  intros t cols restart old c Hd.
+  destruct (load_cols_spec tree_fuel t cols restart old c (PM.empty _) Hd) as [H1 H2].
+  destruct (in_dec Pos.eq_dec c (tree_cols t)) as [Hi|Hni]; [exact (H1 Hi)|].
+  rewrite (H2 Hni). apply PM.gempty.
+Qed.
+
+(* ------------------------------------------------------------------ F5: the columns of a frame *)
+(* hereditary emptiness: below a column without data there is no data (every encoder writes to
+   its own column before its children do) *)
+Definition elision_ok (st : wst) (t : etree) : Prop :=
+  forall x, In x (tree_nodes t) -> col_data st x = [] ->
+  forall y, In y (tree_children x) -> col_data st y = [].
+
+Lemma nodes_nonempty_self : forall ch y, In y (tree_nodes ch) -> In ch (tree_nodes ch).
+Proof.
+  intros ch y H. rewrite tree_nodes_unfold in *. destruct (tree_col ch); [left; reflexivity|contradiction].
+Qed.
+
+Lemma elided_empty : forall root st, elision_ok st root ->
+  forall x, In x (tree_nodes root) -> col_data st x = [] ->
+  forall y, In y (tree_nodes x) -> col_data st y = [].
+Proof.
+  intros root st He. induction x as [x IH] using etree_children_ind. intros Hx Hd y Hy.
+  rewrite tree_nodes_unfold in Hy. destruct (tree_col x) as [c|] eqn:Hc; [|contradiction].
+  destruct Hy as [<-|Hy]; [exact Hd|].
+  apply in_flat_map in Hy. destruct Hy as [ch [Hch Hy]].
+  apply (IH ch Hch); [|exact (He x Hx Hd ch Hch)|exact Hy].
+  apply (node_children_nodes root x ch Hx Hch). exact (nodes_nonempty_self ch y Hy).
+Qed.
+
+Lemma length_eqb0_nil : forall {A} (l : list A), (length l =? 0)%nat = true -> l = [].
+Proof. intros A l H. destruct l; [reflexivity|discriminate]. Qed.
+
+Lemma present_or_empty : forall root st, elision_ok st root ->
+  forall fuel t, In t (tree_nodes root) -> (depth t <= fuel)%nat ->
+  forall x, In x (tree_nodes t) ->
+  In (node_col x, col_data st x) (present_data fuel st t) \/ col_data st x = [].
+Proof.
+  intros root st He. induction fuel as [|f IH]; intros t Ht Hd x Hx.
+  - pose proof (depth_pos t). lia.
+  - cbn [present_data]. rewrite tree_nodes_unfold in Hx.
+    destruct (tree_col t) as [c|] eqn:Hc; [|contradiction].
+    destruct Hx as [<-|Hx].
+    + left. left. unfold node_col. rewrite Hc. reflexivity.
+    + destruct (length (col_data st t) =? 0)%nat eqn:Hz.
+      * right. apply (elided_empty root st He t Ht (length_eqb0_nil _ Hz)).
+        rewrite tree_nodes_unfold, Hc. right. exact Hx.
+      * apply in_flat_map in Hx. destruct Hx as [ch [Hch Hx]].
+        destruct (IH ch) with (x := x) as [Hin|Hem]; [| |exact Hx| |right; exact Hem].
+        -- apply (node_children_nodes root t ch Ht Hch). exact (nodes_nonempty_self ch x Hx).
+        -- pose proof (depth_children t ch Hch). lia.
+        -- left. right. apply in_flat_map. exists ch. split; assumption.
+Qed.
+
+(* the reader's lookup of a node's column in the split data finds that node's data *)
+Theorem col_lookup_present : forall fuel st t x,
+  NoDup (tree_cols t) -> elision_ok st t -> (depth t <= fuel)%nat -> In x (tree_nodes t) ->
+  col_lookup (present_data fuel st t) (node_col x) = col_data st x.
+Proof.
+  intros fuel st t x Hnd He Hd Hx. unfold col_lookup.
+  destruct (find _ (present_data fuel st t)) as [[c' d']|] eqn:Hf.
+  - apply find_some in Hf. destruct Hf as [Hin Heq]. cbn [fst] in Heq.
+    apply Pos.eqb_eq in Heq. subst c'.
+    destruct (present_data_in fuel st t _ _ Hin) as [x' [Hx' [Hc' ->]]].
+    assert (x' = x); [|subst; reflexivity].
+    apply (node_unique t); auto. unfold node_col at 1. rewrite Hc'. reflexivity.
+  - assert (Ht : In t (tree_nodes t)) by exact (nodes_nonempty_self t x Hx).
+    destruct (present_or_empty t st He fuel t Ht Hd x Hx) as [Hin|Hem]; [|symmetry; exact Hem].
+    pose proof (find_none _ _ Hf _ Hin) as Hn. cbn [fst] in Hn. rewrite Pos.eqb_refl in Hn. discriminate.
+Qed.
+
+(* the node that owns a column, and the frame's bytes for a column (none outside the tree) *)
+Definition node_of (t : etree) (c : positive) : option etree :=
+  find (fun x => Pos.eqb (node_col x) c) (tree_nodes t).
+Definition frame_col (st : wst) (t : etree) (c : positive) : bytes :=
+  match node_of t c with Some x => col_data st x | None => [] end.
+
+Lemma node_of_in : forall t x, NoDup (tree_cols t) -> In x (tree_nodes t) -> node_of t (node_col x) = Some x.
+Proof.
+  intros t x Hnd Hx. unfold node_of.
+  destruct (find _ (tree_nodes t)) as [y|] eqn:Hf.
+  - apply find_some in Hf. destruct Hf as [Hy Heq]. apply Pos.eqb_eq in Heq.
+    f_equal. apply (node_unique t); auto.
+  - pose proof (find_none _ _ Hf _ Hx) as Hn. cbn in Hn. rewrite Pos.eqb_refl in Hn. discriminate.
+Qed.
+
+Lemma node_of_out : forall t c, ~ In c (tree_cols t) -> node_of t c = None.
+Proof.
+  intros t c Hni. unfold node_of. destruct (find _ (tree_nodes t)) as [y|] eqn:Hf; [|reflexivity].
+  apply find_some in Hf. destruct Hf as [Hy Heq]. apply Pos.eqb_eq in Heq.
+  exfalso. apply Hni. rewrite tree_cols_nodes, <- Heq. apply in_map. exact Hy.
+Qed.
+
+Lemma tree_cols_node : forall t c, In c (tree_cols t) -> exists x, In x (tree_nodes t) /\ node_col x = c.
+Proof.
+  intros t c H. rewrite tree_cols_nodes in H. apply in_map_iff in H.
+  destruct H as [x [Hc Hx]]. exists x. auto.
+Qed.
+
+Lemma frame_col_lookup : forall st t c,
+  NoDup (tree_cols t) -> elision_ok st t -> (depth t <= tree_fuel)%nat -> In c (tree_cols t) ->
+  col_lookup (present_data tree_fuel st t) c = frame_col st t c.
+Proof.
+  intros st t c Hnd He Hd Hc. destruct (tree_cols_node t c Hc) as [x [Hx <-]].
+  unfold frame_col. rewrite (node_of_in t x Hnd Hx). apply col_lookup_present; assumption.
+Qed.
+
+(* the complete content of every column of the frame, as the reader sees it: the bytes of the
+   column and, for the bit reader, their bits (for a bit column: the bits written followed by the
+   zero padding, see [frame_totals_bit]) *)
+Definition frame_totals (st : wst) (t : etree) : totals :=
+  mkTot (fun c => bits_of_bytes (frame_col st t c)) (frame_col st t).
+
+Lemma frame_totals_bit : forall st t x, NoDup (tree_cols t) -> In x (tree_nodes t) -> is_bit_col x = true ->
+  let c := node_col x in
+  t_bits (frame_totals st t) c
+  = wc_bits (wget st c) ++ zeros ((8 - length (wc_bits (wget st c)) mod 8) mod 8) /\
+  t_bytes (frame_totals st t) c = column_bytes (wc_bits (wget st c)).
+Proof.
+  intros st t x Hnd Hx Hb c. unfold frame_totals. cbn [t_bits t_bytes].
+  unfold frame_col, c. rewrite (node_of_in t x Hnd Hx). unfold col_data.
+  rewrite (tree_nodes_col t x Hx), Hb. rewrite bits_of_column_bytes. split; reflexivity.
+Qed.
+
+Lemma frame_totals_bytes : forall st t x, NoDup (tree_cols t) -> In x (tree_nodes t) -> is_bit_col x = false ->
+  let c := node_col x in
+  t_bytes (frame_totals st t) c = wc_bytes (wget st c) /\
+  t_bits (frame_totals st t) c = bits_of_bytes (wc_bytes (wget st c)).
+Proof.
+  intros st t x Hnd Hx Hb c. unfold frame_totals. cbn [t_bits t_bytes].
+  unfold frame_col, c. rewrite (node_of_in t x Hnd Hx). unfold col_data.
+  rewrite (tree_nodes_col t x Hx), Hb. split; reflexivity.
+Qed.
+
+Lemma frame_totals_outside : forall st t c, ~ In c (tree_cols t) ->
+  t_bits (frame_totals st t) c = [] /\ t_bytes (frame_totals st t) c = [].
+Proof.
+  intros st t c H. unfold frame_totals, frame_col. cbn [t_bits t_bytes].
+  rewrite (node_of_out t c H). split; reflexivity.
+Qed.
+
+(* the writer keeps bits out of byte columns and bytes out of bit columns, and touches no column
+   outside the tree *)
+Definition kind_ok (st : wst) (t : etree) : Prop :=
+  forall x, In x (tree_nodes t) ->
+  if is_bit_col x then wc_bytes (wget st (node_col x)) = [] else wc_bits (wget st (node_col x)) = [].
+Definition outside_default (st : wst) (t : etree) : Prop :=
+  forall c, ~ In c (tree_cols t) -> wget st c = wcol0.
+
+Theorem frame_totals_extends : forall st t, NoDup (tree_cols t) ->
+  kind_ok st t -> outside_default st t -> extends (frame_totals st t) st.
+Proof.
+  intros st t Hnd Hk Ho c.
+  destruct (in_dec Pos.eq_dec c (tree_cols t)) as [Hi|Hni].
+  - destruct (tree_cols_node t c Hi) as [x [Hx <-]]. specialize (Hk x Hx).
+    destruct (is_bit_col x) eqn:Hb.
+    + destruct (frame_totals_bit st t x Hnd Hx Hb) as [H1 H2]. rewrite H1, H2, Hk.
+      split; eexists; [reflexivity|cbn [app]; reflexivity].
+    + destruct (frame_totals_bytes st t x Hnd Hx Hb) as [H1 H2]. rewrite H1, H2, Hk.
+      split; eexists; [cbn [app]; reflexivity|symmetry; apply app_nil_r].
+  - destruct (frame_totals_outside st t c Hni) as [H1 H2]. rewrite H1, H2, (Ho c Hni).
+    cbn [wcol0 wc_bits wc_bytes]. split; exists []; reflexivity.
+Qed.
+
+(* what is carried from one frame to the next: codec states, dictionaries, no error *)
+Record carry (ws : wst) (rs : rst) : Prop := {
+  ca_u : forall c, rc_u (rget rs c) = wc_u (wget ws c) /\ u64_wf (wc_u (wget ws c));
+  ca_f : forall c, rc_f (rget rs c) = wc_f (wget ws c) /\ f64_wf (wc_f (wget ws c));
+  ca_sd : forall d, r_sd rs d = w_sd ws d;
+  ca_tl : forall d, r_tl rs d = w_tl ws d;
+  ca_noerr : w_err ws = false
+}.
+
+Definition acc_empty (ws : wst) : Prop :=
+  forall c, wc_bits (wget ws c) = [] /\ wc_bytes (wget ws c) = [].
+
+Lemma u64_init_wf : u64_wf u64_init.
+Proof. unfold u64_wf, u64_init, two64. cbn. lia. Qed.
+Lemma f64_init_wf : f64_wf f64_init.
+Proof. unfold f64_wf, f64_init, two64. cbn. lia. Qed.
+
+Lemma wget_map : forall (g : wcol -> wcol) st sd tl e c, g wcol0 = wcol0 ->
+  wget (mkWst (PM.map g (w_cols st)) sd tl e) c = g (wget st c).
+Proof.
+  intros g st sd tl e c Hg. unfold wget. cbn [w_cols]. unfold PM.map. rewrite PM.gmapi.
+  destruct (PM.find c (w_cols st)); [reflexivity|symmetry; exact Hg].
+Qed.
+
+Lemma wget_clear : forall st c,
+  wget (w_clear st) c = mkWcol [] [] (wc_u (wget st c)) (wc_f (wget st c)).
+Proof. intros. unfold w_clear. rewrite wget_map; reflexivity. Qed.
+
+Lemma wget_restart : forall fl st c,
+  wget (w_restart fl st) c =
+  if N.testbit fl 2 then mkWcol (wc_bits (wget st c)) (wc_bytes (wget st c)) u64_init f64_init
+  else wget st c.
+Proof.
+  intros. unfold w_restart.
+  destruct (N.testbit fl 2), (N.testbit fl 0); try (rewrite wget_map; reflexivity); reflexivity.
+Qed.
+
+Lemma w_sd_restart : forall fl st d,
+  w_sd (w_restart fl st) d = if N.testbit fl 0 then [] else w_sd st d.
+Proof.
+  intros. unfold w_restart, w_sd. destruct (N.testbit fl 0); cbn [w_sdict]; [|reflexivity].
+  rewrite PM.gempty. reflexivity.
+Qed.
+Lemma w_tl_restart : forall fl st d,
+  w_tl (w_restart fl st) d = if N.testbit fl 0 then 1 else w_tl st d.
+Proof.
+  intros. unfold w_restart, w_tl. destruct (N.testbit fl 0); cbn [w_tlen]; [|reflexivity].
+  rewrite PM.gempty. reflexivity.
+Qed.
+Lemma w_err_restart : forall fl st, w_err (w_restart fl st) = w_err st.
+Proof. intros. unfold w_restart. destruct (N.testbit fl 0); reflexivity. Qed.
+
+(* the reader state after Continue() on a data frame *)
+Definition frame_rst (t : etree) (fl : N) (cols : list (positive * bytes)) (rs0 : rst) : rst :=
+  let cm := load_cols tree_fuel t cols (flag_codecs fl) (PM.empty _) (r_cols rs0) in
+  if flag_dicts fl then mkRst cm (PM.empty _) (PM.empty _) 0
+  else mkRst cm (r_sdict rs0) (r_tlen rs0) 0.
+
+Lemma rget_frame_rst : forall t fl cols rs0 c, (depth t <= tree_fuel)%nat ->
+  rget (frame_rst t fl cols rs0) c =
+  if in_dec Pos.eq_dec c (tree_cols t)
+  then mkRcol (br_init (col_lookup cols c)) (col_lookup cols c)
+              (if flag_codecs fl then u64_init else rc_u (rget rs0 c))
+              (if flag_codecs fl then f64_init else rc_f (rget rs0 c))
+  else rcol0.
+Proof.
+  intros t fl cols rs0 c Hd. unfold frame_rst, rget at 1.
+  assert (Hc : r_cols (if flag_dicts fl
+                       then mkRst (load_cols tree_fuel t cols (flag_codecs fl) (PM.empty _) (r_cols rs0)) (PM.empty _) (PM.empty _) 0
+                       else mkRst (load_cols tree_fuel t cols (flag_codecs fl) (PM.empty _) (r_cols rs0)) (r_sdict rs0) (r_tlen rs0) 0)
+               = load_cols tree_fuel t cols (flag_codecs fl) (PM.empty _) (r_cols rs0))
+    by (destruct (flag_dicts fl); reflexivity).
+  rewrite Hc, load_cols_tree by exact Hd.
+  destruct (in_dec Pos.eq_dec c (tree_cols t)); reflexivity.
+Qed.
+
+(* F5: the reader state produced from the frame content of [st_end] is in [sync] with the
+   writer state at the start of the frame, for the totals [frame_totals st_end t] *)
+Theorem frame_start_sync : forall t fl ws0 rs0 st_end,
+  NoDup (tree_cols t) -> (depth t <= tree_fuel)%nat -> elision_ok st_end t ->
+  carry ws0 rs0 -> acc_empty ws0 -> outside_default ws0 t ->
+  sync (frame_totals st_end t) (w_restart fl ws0)
+       (frame_rst t fl (present_data tree_fuel st_end t) rs0).
+Proof.
+  intros t fl ws0 rs0 st_end Hnd Hd He Hca Hae Hod.
+  assert (Hrg : forall c,
+    rget (frame_rst t fl (present_data tree_fuel st_end t) rs0) c =
+    mkRcol (br_init (frame_col st_end t c)) (frame_col st_end t c)
+           (wc_u (wget (w_restart fl ws0) c)) (wc_f (wget (w_restart fl ws0) c))).
+  { intros c. rewrite rget_frame_rst by exact Hd. rewrite wget_restart.
+    unfold flag_codecs. destruct (in_dec Pos.eq_dec c (tree_cols t)) as [Hi|Hni].
+    - rewrite frame_col_lookup by assumption.
+      destruct (N.testbit fl 2); cbn [wc_u wc_f]; [reflexivity|].
+      rewrite (proj1 (ca_u _ _ Hca c)), (proj1 (ca_f _ _ Hca c)). reflexivity.
+    - unfold frame_col. rewrite (node_of_out t c Hni), (Hod c Hni).
+      destruct (N.testbit fl 2); reflexivity. }
+  assert (Hwb : forall c, wc_bits (wget (w_restart fl ws0) c) = [] /\ wc_bytes (wget (w_restart fl ws0) c) = []).
+  { intros c. rewrite wget_restart. destruct (N.testbit fl 2); cbn [wc_bits wc_bytes]; apply Hae. }
+  constructor.
+  - intros c. rewrite Hrg, (proj1 (Hwb c)). reflexivity.
+  - intros c. rewrite Hrg. cbn [rc_br]. apply br_init_wf.
+  - intros c. rewrite Hrg, (proj2 (Hwb c)). reflexivity.
+  - intros c. rewrite Hrg. cbn [rc_u]. split; [reflexivity|].
+    rewrite wget_restart. destruct (N.testbit fl 2); cbn [wc_u]; [apply u64_init_wf|apply (ca_u _ _ Hca c)].
+  - intros c. rewrite Hrg. cbn [rc_f]. split; [reflexivity|].
+    rewrite wget_restart. destruct (N.testbit fl 2); cbn [wc_f]; [apply f64_init_wf|apply (ca_f _ _ Hca c)].
+  - intros d. rewrite w_sd_restart. unfold frame_rst, flag_dicts, r_sd.
+    destruct (N.testbit fl 0); cbn [r_sdict]; [rewrite PM.gempty; reflexivity|apply (ca_sd _ _ Hca d)].
+  - intros d. rewrite w_tl_restart. unfold frame_rst, flag_dicts, r_tl.
+    destruct (N.testbit fl 0); cbn [r_tlen]; [rewrite PM.gempty; reflexivity|apply (ca_tl _ _ Hca d)].
+  - rewrite w_err_restart. apply (ca_noerr _ _ Hca).
+Qed.
+
+(* closing a frame re-establishes what the next frame needs *)
+Lemma sync_carry : forall T ws rs, sync T ws rs -> carry (w_clear ws) rs.
+Proof.
+  intros T ws rs H. constructor.
+  - intros c. rewrite wget_clear. cbn [wc_u]. apply (sy_u _ _ _ H c).
+  - intros c. rewrite wget_clear. cbn [wc_f]. apply (sy_f _ _ _ H c).
+  - intros d. apply (sy_sd _ _ _ H d).
+  - intros d. apply (sy_tl _ _ _ H d).
+  - apply (sy_noerr _ _ _ H).
+Qed.
+
+Lemma carry_init : carry wst0 rst0.
+Proof.
+  constructor; intros; try reflexivity; unfold wget, rget, wst0, rst0; cbn [w_cols r_cols];
+    rewrite !PM.gempty; cbn; (split; [reflexivity|]); [apply u64_init_wf|apply f64_init_wf].
+Qed.
+
+Lemma acc_empty_clear : forall st, acc_empty (w_clear st).
+Proof. intros st c. rewrite wget_clear. split; reflexivity. Qed.
+
+Lemma acc_empty_init : acc_empty wst0.
+Proof. intros c. unfold wget, wst0. cbn [w_cols]. rewrite PM.gempty. split; reflexivity. Qed.
+
+Lemma outside_default_clear : forall st t, outside_default st t -> outside_default (w_clear st) t.
+Proof. intros st t H c Hc. rewrite wget_clear, (H c Hc). reflexivity. Qed.
+
+Lemma outside_default_init : forall t, outside_default wst0 t.
+Proof. intros t c _. unfold wget, wst0. cbn [w_cols]. rewrite PM.gempty. reflexivity. Qed.
+
+(* the whole reader step on the content produced from [st_end] *)
+Theorem reader_next_frame_sync : forall r fl nrec src' ws0 st_end,
+  let t := rd_tree r in
+  next_frame (rd_src r) = inr (fl, emit_data_frame_content st_end t nrec, src') ->
+  frame_content_ok st_end t nrec ->
+  NoDup (tree_cols t) -> elision_ok st_end t ->
+  carry ws0 (rd_st r) -> acc_empty ws0 -> outside_default ws0 t ->
+  exists r', reader_next_frame r = inr r' /\
+    rd_tree r' = t /\ rd_src r' = src' /\ rd_left r' = nrec /\ rd_count r' = rd_count r /\
+    rd_rec r' = rd_rec r /\
+    rd_td r' = (if flag_dicts fl then PM.empty _ else rd_td r) /\
+    sync (frame_totals st_end t) (w_restart fl ws0) (rd_st r').
+Proof.
+  intros r fl nrec src' ws0 st_end t Hnf Hok Hnd He Hca Hae Hod.
+  unfold reader_next_frame. rewrite Hnf. fold t.
+  rewrite (parse_data_frame_emit st_end t nrec Hok).
+  eexists. split; [reflexivity|].
+  cbn [rd_tree rd_src rd_left rd_count rd_rec rd_td rd_st].
+  repeat (split; [reflexivity|]).
+  destruct Hok as (_ & _ & _ & Hd).
+  exact (frame_start_sync t fl ws0 (rd_st r) st_end Hnd Hd He Hca Hae Hod).
+Qed.
